@@ -86,21 +86,32 @@ def halton_event(d: int, seed: int, sizes: list[int], reseed_at: int | None = No
     from black_it.samplers import halton as hmod
     from black_it.search_space import SearchSpace
 
-    space = SearchSpace([[0.0] * d, [1.0] * d], [0.5] * d, verbose=False)
+    # the unit cube, or another box (dyadic bounds): the points are the sequence mapped affinely onto the bounds
+    lo, up = [(0.0, 1.0), (0.0, 1.0), (-2.0, 6.0), (1.0, 3.0), (0.5, 0.75)][(seed + d) % 5]
+    space = SearchSpace([[lo] * d, [up] * d], [0.5 * (up - lo)] * d, verbose=False)
     pr = primes(d)
     evs = []
     s = hmod.HaltonSampler(batch_size=1, random_state=seed, max_deduplication_passes=0)
     cur_seed, cur_sizes, raw = seed, [], []
+
+    def unit(raws):
+        out = []
+        for r in raws:
+            u = (np.asarray(r, dtype=float) - lo) / (up - lo)
+            if (lo, up) != (0.0, 1.0) and u.size:
+                u[:, 0] = np.round(u[:, 0] * 2.0**20) / 2.0**20      # base 2: exact dyadic values again (the start index is read off them)
+            out.append(u)
+        return out
     with Capture(hmod) as cap:
         for i, n in enumerate(sizes):
             if reseed_at is not None and i == reseed_at:
-                evs.append(_halton_ev(d, cur_seed, cur_sizes, list(cap.raw), pr, reseeded=cur_seed != seed))
+                evs.append(_halton_ev(d, cur_seed, cur_sizes, unit(cap.raw), pr, reseeded=cur_seed != seed))
                 cap.raw.clear()
                 cur_seed, cur_sizes = seed2, []
                 s.random_state = seed2                         # a seed reset also resets the cursor
             s.sample_batch(n, space, np.zeros((0, d)), np.zeros(0))
             cur_sizes.append(n)
-        evs.append(_halton_ev(d, cur_seed, cur_sizes, list(cap.raw), pr, reseeded=cur_seed != seed))
+        evs.append(_halton_ev(d, cur_seed, cur_sizes, unit(cap.raw), pr, reseeded=cur_seed != seed))
     return evs
 
 
@@ -130,7 +141,7 @@ def _halton_ev(d, seed, sizes, raws, pr, reseeded: bool = False) -> dict:
         twin.random_state = seed
     with quiet():
         first = twin._halton(1, d)  # noqa: SLF001
-    sok = bool(len(pts) == 0 or np.array_equal(first[0], pts[0]))
+    sok = bool(len(pts) == 0 or (first.shape[1] == pts.shape[1] and np.allclose(first[0], pts[0], rtol=0, atol=1e-12)))
     total = sum(sizes)
     dens = [den_for(max(start, 0) + total, b) for b in pr]
     nums = [[nums_of([pts[k, j]], dens[j])[0] for j in range(d)] for k in range(len(pts))]
@@ -150,12 +161,13 @@ def rseq_event(d: int, seed: int, sizes: list[int]) -> dict:
     from black_it.samplers import r_sequence as rmod
     from black_it.search_space import SearchSpace
 
-    space = SearchSpace([[0.0] * d, [1.0] * d], [0.5] * d, verbose=False)
+    lo, up = [(0.0, 1.0), (0.0, 1.0), (-2.0, 6.0), (1.0, 3.0)][(seed + d) % 4]
+    space = SearchSpace([[lo] * d, [up] * d], [0.5 * (up - lo)] * d, verbose=False)
     s = rmod.RSequenceSampler(batch_size=1, random_state=seed, max_deduplication_passes=0)
     with Capture(rmod) as cap:
         for n in sizes:
             s.sample_batch(n, space, np.zeros((0, d)), np.zeros(0))
-    pts = np.vstack(cap.raw)
+    pts = (np.vstack(cap.raw) - lo) / (up - lo)
     phi = phi_high(d)
     alpha = [Decimal(1) / phi ** (j + 1) for j in range(d)]
     # the sampler draws (start index, offset) from the generator of its seed: at construction the pair is drawn twice,
